@@ -629,6 +629,13 @@ func c01exec(c *h.Ctx, cs *h.Case) {
 			break
 		}
 	}
+	// quiescence: nothing can move any more — nothing may be parked (checked here, before the extra registration
+	// below gives a stranded message another chance)
+	for t := 0; t < 2; t++ {
+		if n := e.ov.VerifPendingCount(e.trees[t].ID); n > 0 {
+			cs.Fail("stranded", fmt.Sprintf("%d message(s) of tree %d stay parked although nothing can move any more (tree %s)", n, t, e.ov.VerifTreeState(e.trees[t].ID)))
+		}
+	}
 	// a later registration of a tree that is known by now (a local CreateProtocol / StartProtocol does that)
 	// flushes once more: nothing may be handed over a second time. Appended like the ops above.
 	for t := 0; t < 2; t++ {
